@@ -7,6 +7,7 @@ Every edge is an implementation step compared with the reference model (a bytes 
 """
 import collections
 import copy
+import contextlib
 import io
 import itertools
 
@@ -433,6 +434,82 @@ def step(stream, model, op, width):
     return True, "ok", None, False
 
 
+# ----------------------------------------------------------------------------- windows that hang over the end of their parent
+def overhang_configs():
+    """a window whose declared extent reaches beyond the end of the VIEW it is laid over (the last partition of an image
+    that declares more sectors than its container holds): what lies behind the parent view in the file is not part of it"""
+    out = []
+    for parent in ("offset", "offset2", "file", "mdf", "mdx"):
+        for off, L in ((0, 20), (4, 14), (10, 8), (15, 3)):
+            out.append({"over": parent, "off": off, "L": L, "s": 4})
+    return out
+
+
+def build_overhang(cfg):
+    """-> (window, the bytes of the parent view that lie inside the window (shorter than the window's declared length))"""
+    S, SEC, F, MDF = _mods()
+    k, off, L = cfg["over"], cfg["off"], cfg["L"]
+    if k == "offset":
+        raw = base_bytes(40)
+        parent, pl = S.StreamOffset(io.BytesIO(raw), 16, 5), raw[5:21]
+    elif k == "offset2":
+        raw = base_bytes(48)
+        parent, pl = S.StreamOffset(S.StreamOffset(io.BytesIO(raw), 30, 3), 16, 2), raw[5:21]
+    elif k == "file":
+        raw = base_bytes(4 * 6 + 3)
+        parent, pl = F.FileStream(io.BytesIO(raw), 4, [2, 0, 3, 1]), chain_logical(raw, 4, [2, 0, 3, 1])
+    elif k == "mdf":
+        raw = base_bytes(7 * 4)
+        parent, pl = MDF.MdfStream(io.BytesIO(raw)), mdf_logical(raw, 2, 4, 1)
+    else:
+        from smpl_extract.alcohol import mdx as MDX_
+        from mcv.gen import containers as C_
+        pl = base_bytes(16)
+        parent = MDX_.MdxStream(io.BytesIO(C_.mdx(pl, descriptor=40)))
+    return S.StreamOffset(parent, L, off), pl[off:off + L]
+
+
+OVERHANG_OPS = [["seek", 0, 0], ["seek", 3, 0], ["seek", -1, 2], ["seek", -3, 1], ["seek", 2, 1], ["read", 1], ["read", 3],
+                ["read", 5], ["read", 30], ["read", -1], ["tell"]]
+
+
+def run_overhang(cfg, depth, rep):
+    """all operation sequences to `depth` on fresh objects. Oracle (sound for either reading of such a window's length):
+    a read at position p = tell() returns exactly the parent view's bytes from p on, clipped at the request and at the END
+    OF THE PARENT VIEW -- never a byte from behind it; positions stay inside [0, declared length]; a call may fail with an
+    error (the branch ends there)"""
+    n = 0
+    for seq in itertools.product(OVERHANG_OPS, repeat=depth):
+        st0, val = guarded(lambda: build_overhang(cfg), 5.0)
+        case = {"cfg": cfg, "ops": [list(o) for o in seq]}
+        if st0 != "ok":
+            rep.case(case, klass="window-rejected", nontrivial=True)
+            return n
+        stream, eff = val
+        ok, klass, detail = True, "ok", None
+        for op in seq:
+            stp, p = guarded(lambda: stream.tell(), 5.0)
+            if stp != "ok" or not isinstance(p, int) or not (0 <= p <= cfg["L"]):
+                ok, klass, detail = False, "position-outside-window", {"op": op, "observed_pos": repr(p)[:80]}
+                break
+            st, v = guarded(lambda: impl_apply(stream, op), 5.0)
+            n += 1
+            if st == "hang":
+                ok, klass, detail = False, "hang", {"op": op}
+                break
+            if st == "exc":
+                klass = "raised"
+                break
+            if op[0] == "read":
+                want = eff[p:] if op[1] < 0 else eff[p:p + op[1]]
+                if not isinstance(v, (bytes, bytearray)) or bytes(v) != want:
+                    ok, klass = False, "bytes-from-outside-the-parent-view" if isinstance(v, (bytes, bytearray)) and len(v) > len(want) else "mismatch:read"
+                    detail = {"op": op, "position": p, "expected": repr(want)[:80], "observed": repr(v)[:80]}
+                    break
+        rep.case(case, ok=ok, klass=klass, nontrivial=True, detail=detail, sig=f"overhang-{cfg['over']}:{klass}")
+    return n
+
+
 class Check(CheckBase):
     id = "C08"
     level = "model_checking"
@@ -450,7 +527,7 @@ class Check(CheckBase):
             "twice, two nested sample stacks, reversed + forward window over one chained file, two windows over one raw-sector view): "
             "BFS over the union of both views' alphabets plus direct seeks / reads on the shared parent, product state, to depth 3 "
             "with a 10-operation alphabet per view (quick) / to fixed point with the full alphabet (thorough; the three widest configurations to depth 4 with the small "
-            "alphabet, reported as depth-bounded), every view checked against its own reference; non-trivial = state with cursor on a sector boundary "
+            "alphabet, reported as depth-bounded), every view checked against its own reference; 20 windows whose declared extent hangs over the end of the view they are laid over (window, nested window, chained file, raw-sector view, MDX payload; bytes follow behind in the file): all sequences of 3 (thorough 4) operations, a read at tell() must return the parent view's bytes clipped at the parent view's end and never a byte from behind it; non-trivial = state with cursor on a sector boundary "
             "or at the logical end, or a read edge spanning >=1 sector boundary")
     assumptions = ["views are non-empty; whence always passed explicitly",
                    "reversed view: requested size unaligned but clipped size aligned may be accepted or rejected",
@@ -481,6 +558,8 @@ class Check(CheckBase):
         for k in ("reversed", "file8192", "file9216-reversed", "mdf-real", "offset"):
             out.append({"mode": "long", "kind": k})
         # two views over one shared parent: product graph of both views' histories (plus direct use of the parent)
+        for c in overhang_configs():
+            out.append({"mode": "overhang", "cfg": c, "depth": 3 if self.quick else 4})
         for c in pair_configs():
             out.append({"mode": "pairbfs", "cfg": c, "maxdepth": 3 if self.quick else (4 if c.get("wide") else 0)})
         return out
@@ -494,6 +573,12 @@ class Check(CheckBase):
         if shard["mode"] == "long":
             return self._long(shard, rep)
         cfg = shard["cfg"]
+        if shard["mode"] == "overhang":
+            with (MdfConsts(2, 4, 1) if cfg["over"] == "mdf" else contextlib.nullcontext()):
+                k = run_overhang(cfg, shard["depth"], rep)
+            rep.transitions += k
+            rep.traces += len(OVERHANG_OPS) ** shard["depth"]
+            return
         with cfg_ctx(cfg):
             if shard["mode"] == "pairbfs":
                 self._pair_bfs(cfg, rep, shard.get("maxdepth", 0))
@@ -732,6 +817,13 @@ class Check(CheckBase):
             self._long({"kind": case["long"]}, sub)
             rep.case(case, ok=not sub.viol_count, klass="long", detail=sub.violations[0]["detail"] if sub.violations else None,
                      sig=sub.violations[0]["sig"] if sub.violations else "long")
+            return
+        if "over" in cfg:
+            with (MdfConsts(2, 4, 1) if cfg["over"] == "mdf" else contextlib.nullcontext()):
+                sub = Report()
+                run_overhang(cfg, len(case["ops"]), sub)
+            hit = [v for v in sub.violations if v["case"]["ops"] == case["ops"]]
+            rep.case(case, ok=not hit, klass="overhang", detail=hit[0]["detail"] if hit else None, sig=hit[0]["sig"] if hit else "overhang")
             return
         if "pair" in cfg:
             with cfg_ctx(cfg):
